@@ -6,6 +6,7 @@ CONSTANTS
   KeyLock = FALSE
   ExpiryRecheck = TRUE
   EntryApi = TRUE
+  FlushLock = TRUE
 SPECIFICATION Spec
 INVARIANT Linearizable
 PROPERTY Termination
